@@ -145,12 +145,16 @@ class _FsEntry:
     def read_bytes(self):
         if self.path not in self.fs.files:
             raise FileNotFoundError(self.path)
-        return self.fs.files[self.path].encode("utf-8")
+        v = self.fs.files[self.path]
+        return v if isinstance(v, bytes) else v.encode("utf-8")
 
     def write_bytes(self, b):
         if self.fs.unwritable:
             raise PermissionError(self.path)
-        self.fs.files[self.path] = b.decode("utf-8")
+        try:
+            self.fs.files[self.path] = b.decode("utf-8")
+        except UnicodeDecodeError:
+            self.fs.files[self.path] = bytes(b)
         self.fs.writes.append((self.path, self.fs.files[self.path]))
 
     def exists(self):
@@ -168,9 +172,8 @@ class FakeFS:
             vfs.register(k, _FsEntry(self, k))
 
     def open(self, path, mode="r", *a, **k):
+        """`open` replacement for a module namespace; same behaviour as the vfs-patched builtins.open."""
         p = str(path)
-        if "w" in mode or "a" in mode or "+" in mode:
-            return _Writer(self, p, self.unwritable)
-        if p not in self.files:
-            raise FileNotFoundError(p)
-        return _Reader(self.files[p])
+        if p not in vfs.REG:
+            vfs.register(p, _FsEntry(self, p))
+        return vfs._open(p, mode, *a, **k)
